@@ -60,6 +60,7 @@ var (
 	consensusStatePrefix          = []byte("ConsensusState")          // consensusStatePrefix + num (uint64 big endian) -> consensus state
 	consensusValidatorsInfoPrefix = []byte("ConsensusValidatorsInfo") // consensusValidatorsInfoPrefix + hash (consensus params hash) -> consensus params info
 	consensusParamsInfoPrefix     = []byte("ConsensusParamsInfo")     // consensusParamsInfoPrefix + hash (validators hash) -> consensus validators info
+	consensusPrioritiesPrefix     = []byte("ConsensusPriorities")     // consensusPrioritiesPrefix + num (uint64 big endian) -> proposer priorities of the state's validator sets
 
 	// Data item prefixes (use single byte to avoid mixing data types, avoid `i`, used for indexes).
 	headerPrefix       = []byte("h") // headerPrefix + num (uint64 big endian) + hash -> header
@@ -269,6 +270,11 @@ func genesisStateSpecKey(hash common.Hash) []byte {
 // consensusStateKey = consensusStatePrefix + num (uint64 big endian)
 func calcConsensusStateKey(height uint64) []byte {
 	return append(consensusStatePrefix, encodeBlockHeight(height)...)
+}
+
+// consensusPrioritiesKey = consensusPrioritiesPrefix + num (uint64 big endian)
+func calcConsensusPrioritiesKey(height uint64) []byte {
+	return append(consensusPrioritiesPrefix, encodeBlockHeight(height)...)
 }
 
 // consensusValidatorsInfoKey = consensusValidatorsInfoPrefix + hash (validators hash)
